@@ -125,6 +125,18 @@ Proof.
 Qed.
 Print Assumptions C04_resize.
 
+(* the source position n*i/m (exact integer floor division) is monotone in the output position, starts at 0 and stays below
+   the source extent — for ALL extents: the unbounded statement the large-extent correspondence (resize_ixall) is tied to *)
+Theorem C04_resize_exact_monotone : forall n m i j, 0 <= n -> 0 < m -> 0 <= i <= j -> j < m ->
+  0 <= n * i / m <= n * j / m /\ (0 < n -> n * j / m < n) /\ n * 0 / m = 0.
+Proof. exact resize_axis_props. Qed.
+Print Assumptions C04_resize_exact_monotone.
+
+Theorem C04_resize_index_monotone : forall s d i j, length s = length d -> pos s -> inb i d -> inb j d ->
+  Forall2 Z.le i j -> Forall2 Z.le (resize_index i s d) (resize_index j s d).
+Proof. exact resize_index_mono. Qed.
+Print Assumptions C04_resize_index_monotone.
+
 (* ---------- concatenate ---------- *)
 Theorem C04_concatenate_axis : forall a b axis d i, - zlen a <= axis < zlen a ->
   np_concat_axis_shape a b axis = Some d ->
